@@ -166,7 +166,18 @@ def build_class(kind, spec):
                 ft = f['factory']
                 kw['default_factory'] = (lambda ft=ft: valgen.build(ft)[0])
             flds.append((f['name'], object, dataclasses.field(**kw)))
+        pseudo = _counter[0] % 3 == 0
+        if pseudo:
+            # pseudo-fields: not fields of the instances (dataclasses.fields() leaves them out), never printed
+            import typing
+            used = {f['name'] for f in spec}
+            extra = [('tally', typing.ClassVar[int], dataclasses.field(default=0)),
+                     ('limit', typing.ClassVar[int]),
+                     ('scale', dataclasses.InitVar[int], dataclasses.field(default=2, kw_only=True))]
+            flds = [e for e in extra[:2] if e[0] not in used] + flds + [e for e in extra[2:] if e[0] not in used]
         cls = dataclasses.make_dataclass(name, flds)
+        if pseudo and 'tally' not in {f['name'] for f in spec}:
+            cls.tally = 3          # the class attribute has moved away from its declared value
     else:
         attrs = {}
         for f in spec:
